@@ -2,7 +2,8 @@
    usage: scen_wfcq PROG SCHED ; thread 0 dequeues ('D' = __cds_wfcq_dequeue_blocking), others enqueue ('E<digit>').
    Further dequeuer-side operations (oracle only, not in the Coq model): d = __cds_wfcq_dequeue_nonblocking (-1 = WOULDBLOCK),
    w = __cds_wfcq_dequeue_with_state_blocking, s / n = __cds_wfcq_splice_blocking / _nonblocking into a private queue whose content is then
-   recorded, e = cds_wfcq_empty, I = __cds_wfcq_for_each_blocking.  At the end the queue is drained with bounded non-blocking dequeues. */
+   recorded, e = cds_wfcq_empty, I = __cds_wfcq_for_each_blocking.  The mutex-protected multi-consumer API, usable by any thread: L = cds_wfcq_dequeue_blocking,
+   S = cds_wfcq_splice_blocking into a private queue (both take the internal dequeue lock of the source queue).  At the end the queue is drained with bounded non-blocking dequeues. */
 #define _LGPL_SOURCE
 #include <urcu/wfcqueue.h>
 #include <stdio.h>
@@ -15,16 +16,17 @@ static char *prog[MAXTH]; static int nprog;
 static void body(int t){ for(char *p=prog[t]; *p; p++){
 	if(*p=='E'){ struct cds_wfcq_node *x=&n[p[1]-'0']; p++; vs_call("enq",(unsigned long)x); int r=cds_wfcq_enqueue(&h,&tl,x); vs_ret("enq",r); }
 	else if(*p=='D'){ vs_call("deq",0); struct cds_wfcq_node *x=__cds_wfcq_dequeue_blocking(&h,&tl); vs_ret("deq",(unsigned long)x); }
+	else if(*p=='L'){ vs_call("deq",0); struct cds_wfcq_node *x=cds_wfcq_dequeue_blocking(&h,&tl); vs_ret("deq",(unsigned long)x); }
 	else if(*p=='d'){ vs_call("deqnb",0); struct cds_wfcq_node *x=__cds_wfcq_dequeue_nonblocking(&h,&tl); vs_ret("deqnb",x==CDS_WFCQ_WOULDBLOCK?(unsigned long)-1:(unsigned long)x); }
 	else if(*p=='w'){ int st=0; vs_call("deqs",0); struct cds_wfcq_node *x=__cds_wfcq_dequeue_with_state_blocking(&h,&tl,&st); vs_note("state %d",st); vs_ret("deqs",(unsigned long)x); }
-	else if(*p=='s'||*p=='n'){ /* a fresh private queue per splice: its memory is never reused while an old store to it may still sit in the simulated store buffer */
+	else if(*p=='s'||*p=='n'||*p=='S'){ /* a fresh private queue per splice: its memory is never reused while an old store to it may still sit in the simulated store buffer */
 		static struct { struct cds_wfcq_head h; struct cds_wfcq_tail t; } PQ[64]; static int npq; if(npq>=64) continue;
 		struct cds_wfcq_head *ph2=&PQ[npq].h; struct cds_wfcq_tail *pt2=&PQ[npq].t; npq++;
 		#define h2 (*ph2)
 		#define t2 (*pt2)
 		struct cds_wfcq_node *x; char buf[256]; int l=0; buf[0]=0; vs_quiet_begin(); cds_wfcq_init(&h2,&t2); vs_quiet_end();
-		vs_call(*p=='s'?"splice":"splicenb",0); enum cds_wfcq_ret r = *p=='s' ? __cds_wfcq_splice_blocking(&h2,&t2,&h,&tl) : __cds_wfcq_splice_nonblocking(&h2,&t2,&h,&tl);
-		vs_ret(*p=='s'?"splice":"splicenb",(unsigned long)r);
+		vs_call(*p!='n'?"splice":"splicenb",0); enum cds_wfcq_ret r = *p=='S' ? cds_wfcq_splice_blocking(&h2,&t2,&h,&tl) : *p=='s' ? __cds_wfcq_splice_blocking(&h2,&t2,&h,&tl) : __cds_wfcq_splice_nonblocking(&h2,&t2,&h,&tl);
+		vs_ret(*p!='n'?"splice":"splicenb",(unsigned long)r);
 		/* the walk over the private queue is a separate (blocking) operation: it may wait for an enqueuer whose node was spliced with its link still pending */
 		vs_call("walk",0); if(r!=CDS_WFCQ_RET_WOULDBLOCK) __cds_wfcq_for_each_blocking(&h2,&t2,x){ l+=sprintf(buf+l,"%d,",(int)(x-n)); } vs_note("chain %s",buf); vs_ret("walk",0); }
 		#undef h2
@@ -36,7 +38,7 @@ int main(int argc,char**argv){
 	if(argc<3) return 9;
 	for(char *s=strtok(argv[1],"/"); s && nprog<MAXTH; s=strtok(0,"/")) prog[nprog++]=s;
 	cds_wfcq_init(&h,&tl); for(int i=0;i<10;i++) cds_wfcq_node_init(&n[i]);
-	vs_region(&h.node,sizeof h.node,"head"); vs_region(&tl,sizeof tl,"tail"); vs_region(n,sizeof n,"n"); vs_plain_track(n,sizeof n);   /* effective in the build with instrumented plain stores */
+	vs_region(&h.lock,sizeof h.lock,"qlock"); vs_region(&h.node,sizeof h.node,"head"); vs_region(&tl,sizeof tl,"tail"); vs_region(n,sizeof n,"n"); vs_plain_track(n,sizeof n);   /* effective in the build with instrumented plain stores */
 	for(int i=0;i<nprog;i++) vs_spawn(body);
 	vs_run(argv[2]);
 	{ printf("- drain"); int tries=0; for(;;){ struct cds_wfcq_node *x=__cds_wfcq_dequeue_nonblocking(&h,&tl); if(x==CDS_WFCQ_WOULDBLOCK){ if(++tries>50){ printf(" WOULDBLOCK"); break; } continue; } if(!x) break; printf(" %d",(int)(x-n)); } printf("\n"); }
